@@ -341,6 +341,30 @@ func c14Sweep(seed uint64, tier string, build string, emit func(op, obs string),
 						Expected: "user[0]", Actual: o.frame + " in " + o.payload})
 				}
 			}
+			if kind != "default" {
+				// loggers derived from a logger that has a skip count start at skip 0: New(name) and the With… builders
+				base.SetSkip(2)
+				kids := map[string]slog.Logger{
+					"New":       base.New("c14kid"),
+					"WithAttrs": base.WithAttrs(slog.NewAttr("kid", 1)),
+					"WithLevel": base.WithLevel(slog.TraceLevel),
+				}
+				for how, kid := range kids {
+					kid.SetWriter(rec).SetErrorWriter(rec).SetLevel(slog.TraceLevel)
+					cc := &c14ctx{l: kid, ctx: ctx, msg: "m"}
+					rec.take()
+					c14w4(cc, c14calls[4].f)
+					o := c14Observe(cc, rec, format)
+					emit(fmt.Sprintf("C14 v l Info 0 0 %d", len(cc.frames)), o.frame)
+					seen(fmt.Sprintf("%s|%s|%s|derived-from-skipping-logger|%s", build, format, kind, how))
+					if o.frame != "user[0]" {
+						violate(violation{What: "a logger derived from a logger with a skip count does not start at skip 0",
+							Input:    map[string]any{"build": build, "format": format, "logger": kind, "sequence": "base.SetSkip(2); kid := base." + how + "(...); kid.Info(...)"},
+							Expected: "user[0]", Actual: o.frame + " in " + o.payload})
+					}
+				}
+				base.SetSkip(0)
+			}
 			// a std log bridge made while caller information was switched off attributes its records as soon as
 			// caller information is switched on (the flag is read per record)
 			{
